@@ -40,6 +40,12 @@ CHECKS = {
         text="Seeded scenarios of asconcrypt (-e/-d/auto-detect/-o/-p/-k/-g/stdin-stdout) and asconsum (hash and -c check mode) run as simulated processes against a simulated OS; faults and crash points are attached to a specific call of a specific invocation. Oracles: round-trip identity; exit != 0 and no output file after wrong password, any bit flip, truncation (= writer crashed after any prefix), extension, any hard I/O fault or entropy failure; transient faults end in correct success or loud failure; asconsum output equals the library digest lines; check mode says OK exactly for unmodified files. Thorough adds fault_enumeration-style sweeps (k-th read/write fails for every k; every truncation length; one bit in every byte) on small files; the claimed level stays exploration because scenarios are sampled.",
         note="Trusted: the simulated OS (simos.c) and the harness' container check via library calls; PBKDF2 rounds reduced by a wrapper in most runs; close() errors and list-file read errors in check mode are not judged (not in the statement).",
         design="§3 W5, §4 C19"),
+    "C20": dict(
+        technique="deterministic simulation: seeded operation histories on a pool of aliased non-STL byte_array values mirrored by std::vector, with injected allocation failures; hex codec under generated hostile texts and capacities against a grammar model",
+        category="exploration",
+        text="(a) Non-STL byte_array (library rebuilt with -DASCON_NO_STL): a pool of up to 6 variables goes through seeded histories of construct/copy/assign(self)/index/data()/resize/reserve/push/pop/clear/compare/iterate/destroy; after every operation every variable must equal its std::vector mirror (this exposes aliasing through the shared reference-counted buffer), comparisons must agree with std::vector, an allocation failure injected at the k-th allocation inside an operation must surface as std::bad_alloc without disturbing the other variables, and no block may stay allocated. (b) Hex codec and C++ helpers: texts from a grammar with whitespace, illegal characters (inserted or replacing a digit so parity varies), odd counts, NUL and high bytes, with exact/short/zero/larger capacities and guard bytes, against a 20-line reference decoder; encode-decode identity. Part (b) is model-based input sampling and is labelled so.",
+        note="Trusted: std::vector as the value-semantics reference; the reference decoder; replaceable global operator new as the allocation seam.",
+        design="§3 W6, §4 C20"),
     "C07": dict(
         technique="deterministic simulation: seeded interleaved object histories (chunking, copy, re-init, free, dirty-memory reuse) checked against the library's own single-call form",
         category="exploration",
